@@ -54,12 +54,12 @@ impl Outcome {
     }
 }
 
-fn first_error(errs: &[crate::error::Error]) -> String {
+pub fn first_error(errs: &[crate::error::Error]) -> String {
     errs.first().map_or_else(String::new, |e| e.message.clone())
 }
 
 // Canonical, fully bracketed form of gram's parse tree (names, not indices).
-fn canon_term(t: &Term) -> String {
+pub fn canon_term(t: &Term) -> String {
     use Variant::*;
     let b2 = |n: &str, a: &Term, b: &Term| format!("({n} {} {})", canon_term(a), canon_term(b));
     match &t.variant {
@@ -93,7 +93,7 @@ fn canon_term(t: &Term) -> String {
 }
 
 // The same canonical form for the generator's tree.
-fn canon_e(e: &E) -> String {
+pub fn canon_e(e: &E) -> String {
     let opt = |a: &Option<Box<E>>| a.as_ref().map_or("_".to_owned(), |a| canon_e(a));
     match e {
         E::Lit(n) => n.to_string(),
@@ -254,6 +254,8 @@ pub fn run(out: &mut Out, tier: &str, seed: u64) {
     let mut mismatches = Printer { left: 20 };
     let mut rw_print = Printer { left: 20 };
     let mut tree_print = Printer { left: 10 };
+    let mut excused = Printer { left: 20 };
+    let verbose = std::env::var("GPROG_VERBOSE").is_ok();
 
     for i in 0..n {
         // everything about program i derives from (seed, i)
@@ -277,13 +279,20 @@ pub fn run(out: &mut Out, tier: &str, seed: u64) {
         if p.fully_annotated { out.stat("fully-annotated"); }
         for f in &p.features { out.stat(&format!("feature:{f}")); }
         out.stat_add("steps-total", run.steps as u64);
+        out.stat(&format!("steps:{}", match run.steps { 0..=9 => "0000-0009", 10..=99 => "0010-0099", 100..=999 => "0100-0999", 1000..=4999 => "1000-4999", _ => "5000+" }));
         if rendered.reassoc_defect_sites > 0 { out.stat("text-has-known-reassoc-defect-shape"); }
 
         let fwd = p.features.contains(&"forward-ref");
         let holes = !p.fully_annotated;
         let reassoc = rendered.reassoc_defect_sites > 0;
         match run.tree_matches {
-            Some(true) => out.stat("parse-tree:same"),
+            Some(true) => {
+                out.stat("parse-tree:same");
+                if reassoc {
+                    out.stat("parse-tree:same-despite-defect-shape");
+                    if verbose { excused.show("defect shape but same tree", src, &p, &run.outcome); }
+                }
+            }
             Some(false) if reassoc => out.stat("parse-tree:differs(known-reassoc-defect)"),
             Some(false) => {
                 out.stat("parse-tree:DIFFERS");
@@ -304,7 +313,10 @@ pub fn run(out: &mut Out, tier: &str, seed: u64) {
             Verdict::NoExpectation => out.stat("value:no-expectation"),
             Verdict::Rejected => {
                 match excuse {
-                    Some(x) => out.stat(&format!("rejected-with-excuse:{x}")),
+                    Some(x) => {
+                        out.stat(&format!("rejected-with-excuse:{x}"));
+                        if verbose && x != "known-reassoc-defect" { excused.show("excused program rejected", src, &p, &run.outcome); }
+                    }
                     None => {
                         out.stat("rejected:UNEXPECTED(fully-annotated)");
                         rejects.show("fully annotated program rejected", src, &p, &run.outcome);
@@ -345,8 +357,15 @@ pub fn run(out: &mut Out, tier: &str, seed: u64) {
                 let v2 = judge(&p.expected, &run2.outcome);
                 if v2 == Verdict::Match {
                     out.stat(&format!("rewrite:{kind}:same-value"));
-                } else if r2.reassoc_defect_sites > 0 || run2.tree_matches == Some(false) && r2.reassoc_defect_sites > 0 {
+                } else if r2.reassoc_defect_sites > 0 {
                     out.stat(&format!("rewrite:{kind}:differs(known-reassoc-defect)"));
+                } else if fwd {
+                    // the rewrite may move a forward reference to where it is evaluated
+                    out.stat(&format!("rewrite:{kind}:differs(known-forward-ref)"));
+                } else if holes {
+                    // holes are fragile in gram: a rewrite can change what inference manages
+                    out.stat(&format!("rewrite:{kind}:differs(holes)"));
+                    if verbose { excused.show(&format!("rewrite {kind} of a program with holes not preserved; original:\n{src}\nrewritten:"), &r2.text, &p, &run2.outcome); }
                 } else {
                     out.stat(&format!("rewrite:{kind}:{}", match v2 { Verdict::Rejected => "REJECTED", Verdict::Stuck => "STUCK", Verdict::OutOfSteps => "OUT-OF-STEPS", _ => "MISMATCH" }));
                     rw_print.show(&format!("rewrite {kind} not preserved; original:\n{src}\nrewritten:"), &r2.text, &p, &run2.outcome);
